@@ -30,7 +30,6 @@ docstring) maps every generated location to a path in the temp tree; see
 
 import os
 import stat
-import shutil
 import threading as mt
 import collections
 
